@@ -28,7 +28,7 @@ func init() {
 			"and 400 random byte strings up to 12 bytes biased to continuation bytes, each also followed by arbitrary trailing bytes. The first case a worker process runs starts with a probe of one function family (size functions or codecs, in rotating order) before anything else of the package has run in that process. Oracle = independent reference codec written from the documentation: identical bytes, exact round trip ((v+1)-1 for varfloat), 1<=len<=9 == size function, framing, io.EOF on every strict prefix with the slice untouched, int32 range check, no panic, <=9 bytes consumed. " +
 			"Race-detector pass: in a race-instrumented build, 4 processes x 8 goroutines encode and decode their own values into their own buffers with no synchronisation; every round trip is verified and any DATA RACE report is a violation (the functions must not keep shared mutable state between calls). Non-trivial = batch containing a 9-byte encoding and a length-class boundary value; distinct = hash of the batch's values.",
 		Cases:     core.Scale(256+10000, 256+250000),
-		Mandatory: []string{"oracle.roundtrips", "oracle.prefix_eof", "oracle.hostile_strings", "exhaustive.strings_len_le2", "encoding.len9", "oracle.varint32_rejects", "oracle.fresh_process_probes", "race.codec_calls"},
+		Mandatory: []string{"oracle.roundtrips", "oracle.prefix_eof", "oracle.hostile_strings", "exhaustive.strings_len_le2", "encoding.len9", "oracle.varint32_rejects", "oracle.fresh_process_probes", "race.codec_calls", "oracle.spare_capacity_untouched"},
 		Assumptions: []string{
 			"the reference codec in /verif/harness/internal/wire is itself correct with respect to the format documentation",
 		},
@@ -163,8 +163,32 @@ func roundTripU64(c *core.Ctx, r *rng.Rng, u uint64) (maxLen int) {
 	for i := range prefix {
 		prefix[i] = byte(r.U64())
 	}
+	// the buffer handed to an encoder: the prefix alone, or the prefix as a window on a larger array whose spare
+	// capacity holds a caller's other bytes (0xA5): appending n bytes writes those n bytes and nothing else
+	var arena []byte
+	newBuf := func() []byte {
+		arena = nil
+		if r.Bool() {
+			return append([]byte{}, prefix...)
+		}
+		arena = make([]byte, len(prefix)+24)
+		for i := range arena {
+			arena[i] = 0xA5
+		}
+		copy(arena, prefix)
+		return arena[:len(prefix)]
+	}
 	check := func(name string, got []byte, want []byte, size int, decode func(p *[]byte) (ok bool, desc string)) {
 		c.Count("oracle.roundtrips", 1)
+		if arena != nil && len(got) <= len(arena) && len(got) > 0 && &got[0] == &arena[0] {
+			c.Count("oracle.spare_capacity_untouched", 1)
+			for i := len(got); i < len(arena); i++ {
+				if arena[i] != 0xA5 {
+					c.Failf(name+".writes_past_the_encoding", "%s appended %d bytes to a buffer with spare capacity and also changed byte %d of the array beyond them (0xa5 -> %#x)", name, len(got)-len(prefix), i, arena[i])
+					return
+				}
+			}
+		}
 		if !bytes.HasPrefix(got, prefix) {
 			c.Failf(name+".clobbers_prefix", "%s overwrote the existing buffer content", name)
 			return
@@ -216,7 +240,7 @@ func roundTripU64(c *core.Ctx, r *rng.Rng, u uint64) (maxLen int) {
 	}
 	// uvarint
 	{
-		b := append([]byte{}, prefix...)
+		b := newBuf()
 		enc.EncodeUvarint64(&b, u)
 		check("Uvarint64", b, wire.AppendUvarint(nil, u), enc.Uvarint64Size(u), func(p *[]byte) (bool, string) {
 			v, err := enc.DecodeUvarint64(p)
@@ -229,7 +253,7 @@ func roundTripU64(c *core.Ctx, r *rng.Rng, u uint64) (maxLen int) {
 	// varint
 	{
 		v64 := int64(u)
-		b := append([]byte{}, prefix...)
+		b := newBuf()
 		enc.EncodeVarint64(&b, v64)
 		check("Varint64", b, wire.AppendVarint(nil, v64), enc.Varint64Size(v64), func(p *[]byte) (bool, string) {
 			v, err := enc.DecodeVarint64(p)
@@ -254,7 +278,7 @@ func roundTripU64(c *core.Ctx, r *rng.Rng, u uint64) (maxLen int) {
 	// float64 LE and varfloat on the bit pattern
 	{
 		f := math.Float64frombits(u)
-		b := append([]byte{}, prefix...)
+		b := newBuf()
 		enc.EncodeFloat64LE(&b, f)
 		check("Float64LE", b, wire.AppendFloat64LE(nil, f), 8, func(p *[]byte) (bool, string) {
 			v, err := enc.DecodeFloat64LE(p)
@@ -263,7 +287,7 @@ func roundTripU64(c *core.Ctx, r *rng.Rng, u uint64) (maxLen int) {
 			}
 			return math.Float64bits(v) == u, "decoded bits differ"
 		})
-		b = append([]byte{}, prefix...)
+		b = newBuf()
 		enc.EncodeVarfloat64(&b, f)
 		want := wire.VarfloatRoundTrip(f)
 		check("Varfloat64", b, wire.AppendVarfloat(nil, f), enc.Varfloat64Size(f), func(p *[]byte) (bool, string) {
